@@ -157,6 +157,10 @@ def _run(vec, mode):
             else:
                 tag = "{C15}"
                 what = f"register {r} (not an output of this call)"
+            dp = U.check_dims(a.dims, expected_json(e)["dims"], what)
+            if dp:      # the register's dimension set itself differs (e.g. edited through an object shared with another array)
+                problems += [tagp + where + tag.replace("}", ",C13}") + " " + p for p in dp]
+                continue
             sh = U.check_shape(a, what)
             if sh:
                 problems += [tagp + where + "{C13} " + p for p in sh]
